@@ -90,7 +90,7 @@ def _parse_cookie_header(header_value: str) -> Dict[str, List[str]]:
         # PERF(kgriffs): These checks have been hoisted from within _unquote()
         # to avoid the extra function call in the majority of the cases when it
         # is not needed.
-        if len(value) > 2 and value[0] == '"' and value[-1] == '"':
+        if len(value) >= 2 and value[0] == '"' and value[-1] == '"':
             value = http_cookies._unquote(value)
 
         # PERF(kgriffs): This is slightly more performant as
